@@ -20,9 +20,10 @@ CONSTANTS MaxLen,      \* strings of length 1..MaxLen are enumerated
 \* symbol classes. "w" ordinary word char; "refs","heads","tags" are whole words (ordinary
 \* chars as far as git is concerned, but they let the dash rule be reached); "lock" is the
 \* four characters "lock"; "bs" backslash; "sp" space; "ctl" a control char or DEL; "hi" a
-\* byte >= 0x80; "-" the dash.
+\* byte >= 0x80; "-" the dash; "wlock" is a word that ends in ".lock" (e.g. "x.lock"), so that a
+\* NON-final component ending in .lock is reachable within short strings.
 Alpha == {"w", "/", ".", "@", "{", "~", "^", ":", "?", "*", "[", "bs", "sp", "ctl", "hi", "-",
-          "lock", "refs", "heads", "tags"}
+          "lock", "wlock", "refs", "heads", "tags"}
 Bad   == {"~", "^", ":", "?", "*", "[", "bs", "sp", "ctl"}
 
 Strs == UNION {[1..n -> Alpha] : n \in 1..MaxLen}
@@ -44,6 +45,7 @@ ValidGit(s) ==
   /\ \A i \in 1..Len(s)-1 : ~(s[i] = "@" /\ s[i+1] = "{")              \* rule 8
   /\ s[Len(s)] # "."                                                   \* rule 7
   /\ \A i \in 2..Len(s) : ~(s[i] = "lock" /\ s[i-1] = "." /\ CompEnd(s, i))  \* rule 1 (.lock)
+  /\ \A i \in 1..Len(s) : ~(s[i] = "wlock" /\ CompEnd(s, i))
   \* rule 9 (the whole name "@") is implied by rule 2.
 
 \* which rules reject s (for finding signatures; same conjuncts as ValidGit)
@@ -55,7 +57,8 @@ Why(s) ==
   (IF \A i \in 1..Len(s)-1 : ~(s[i] = "." /\ s[i+1] = ".") THEN {} ELSE {"r3-dotdot"}) \cup
   (IF \A i \in 1..Len(s)-1 : ~(s[i] = "@" /\ s[i+1] = "{") THEN {} ELSE {"r8-at-brace"}) \cup
   (IF s[Len(s)] # "." THEN {} ELSE {"r7-trailing-dot"}) \cup
-  (IF \A i \in 2..Len(s) : ~(s[i] = "lock" /\ s[i-1] = "." /\ CompEnd(s, i)) THEN {} ELSE {"r1-dot-lock"})
+  (IF (\A i \in 2..Len(s) : ~(s[i] = "lock" /\ s[i-1] = "." /\ CompEnd(s, i))) /\
+      (\A i \in 1..Len(s) : ~(s[i] = "wlock" /\ CompEnd(s, i))) THEN {} ELSE {"r1-dot-lock"})
 
 \* index of the first symbol of component number k (1-based), 0 if none
 CompFirst(s, k) ==
